@@ -301,7 +301,7 @@ def _gro(atoms, box):
 @condition("C03.end_to_end",
            anchors=["polyply.src.gen_coords:gen_coords", "polyply.src.build_system:BuildSystem.run_system", "polyply.src.backmap:Backmap.run_molecule",
                     "polyply.src.generate_templates:GenerateTemplates.run_molecule", "polyply.src.topology:Topology.add_positions_from_file"],
-           rejects=(), selector_only=True, must_cover=["box", "density", "structure", "build file", "grid", "start", "meta coordinates", "nested includes"],
+           rejects=(), selector_only=True, must_cover=["box", "density", "structure", "build file", "grid", "start", "meta coordinates", "nested includes", "split"],
            stubs=["none: the real gen_coords runs end to end with real files (random seed fixed from VERIF_SEED)"],
            outside=["systems larger than the 4-molecule test system", "this condition explores option combinations with one seed each; all-seeds claims are the lemmas above"],
            cfg={"path_timeout_s": 300},
@@ -373,6 +373,11 @@ def end_to_end(sx, B):
             np.savetxt(Path(d) / "grid.dat", pts)
             kw["grid"] = Path(d) / "grid.dat"
             sx.cover("grid")
+        split = sx.sel("split_residue_A", [False, True]) if boxmode in ("box", "density") and not start and not buildfile else False
+        if split:
+            # -split without input coordinates: residue A of PM becomes two one-atom residues (the other residues and the solvent are not split)
+            kw["split"] = ["A:A1-a1:A2-a2"]
+            sx.cover("split")
         if start:
             kw["start"] = ["PM-A#3"]
             sx.cover("start")
@@ -387,8 +392,13 @@ def end_to_end(sx, B):
     natoms = int(text[1])
     got = [(int(l[0:5]), l[5:10].strip(), l[10:15].strip(), tuple(float(x) for x in l[20:].split()[:3])) for l in text[2:2 + natoms]]
     what = lambda: "options %r" % {k: (str(v) if not isinstance(v, (int, float, list)) else v) for k, v in kw.items() if k not in ("toppath", "outpath", "name")}
-    sx.claim([g[:3] for g in got] == want, "the structure lists exactly the atoms of the expanded [ molecules ] section in topology order",
-             lambda: what() + ": %r" % [g[:3] for g in got])
+    if split:
+        # splitting renames and renumbers residues (C18.split); the atoms and their order are those of the topology
+        sx.claim([g[2] for g in got] == [w[2] for w in want], "the structure lists exactly the atoms of the expanded [ molecules ] section in topology order",
+                 lambda: what() + ": %r" % [g[:3] for g in got])
+    else:
+        sx.claim([g[:3] for g in got] == want, "the structure lists exactly the atoms of the expanded [ molecules ] section in topology order",
+                 lambda: what() + ": %r" % [g[:3] for g in got])
     sx.claim(all(np.all(np.isfinite(g[3])) for g in got), "every coordinate is finite", what)
     boxline = [float(x) for x in text[2 + natoms].split()]
     if boxmode in ("structure", "meta coordinates"):
